@@ -278,6 +278,21 @@ def gen_plan(seed, tier):
          # the handler of the last delivered message is still on the stack
          "loopback": side == "sw" and r.chance(0.25)}
   cfg["talk_first"] = side == "sw" and Rng(mix(seed, "first")).chance(0.3)
+  rp = Rng(mix(seed, "pre"))
+  if cfg["join_handshake"] and rp.chance(0.4):
+    pre = []
+    for j in range(rp.randint(1, 3)):
+      k = rp.pick(["echo", "qreply", "qreply", "t20"])
+      x = 0x3300 + j
+      if k == "echo":
+        pre.append(W.enc_echo_request(x, b"pre"))
+      elif k == "qreply":
+        # QUEUE_GET_CONFIG_REPLY (type 21): a type the connected-state
+        # handler table has a slot for and the handshake table has not
+        pre.append(W.msg(21, x, struct.pack("!H6x", 1)))
+      else:
+        pre.append(W.msg(20, x, struct.pack("!H2x", 1)))
+    cfg["pre_barrier"] = [m.hex() for m in pre]
   if huge and cfg["recv_mode"] == "dribble":
     cfg["recv_mode"] = "choose"     # 64 KiB one byte per cycle: too slow
   if tiny:
@@ -365,6 +380,18 @@ def _boot_ctl(sim, cfg):
     if ok:
       first = [W.enc_barrier_reply(br[0]["xid"])]
       sim.probes["stream_starts_with_handshake_end"] += 1
+      pre = [bytes.fromhex(h) for h in cfg.get("pre_barrier", [])]
+      if pre:
+        # well-formed messages that arrive while the connection still has
+        # its (shorter) handshake handler table: those it has no handler
+        # for are skipped, and framing goes on
+        con = peer.con
+        world.unobservable = set(
+            i for i in range(256)
+            if i >= len(con.handlers) or con.handlers[i] is None)
+        world.n_pre = len(pre)
+        first = pre + first
+        sim.probes["messages_before_handshake_end"] += 1
   else:
     ok = handshake_script(peer, 0x42, [PORT])
   if not ok:
@@ -402,6 +429,10 @@ def _drive(sim, plan):
     o += len(m)
     ends.append(o)
   sent = [(m[1], struct.unpack_from("!L", m, 4)[0]) for m in msgs]
+  obs = [True] * len(msgs)
+  if side == "ctl":
+    for k in range(getattr(world, "n_pre", 0)):
+      obs[k] = sent[k][0] not in world.unobservable
   sim.probes["side_" + side] += 1
   # classify cuts for the reach report
   starts = [e - len(m) for e, m in zip(ends, msgs)]
@@ -494,7 +525,7 @@ def _drive(sim, plan):
       sim.settle()
     sim.drain()
     arrived = bounds[i + 1]
-    want = [sent[k] for k, e in enumerate(ends) if e <= arrived]
+    want = [sent[k] for k, e in enumerate(ends) if e <= arrived and obs[k]]
     have = delivered()
     if have != want:
       _explain(have, want, arrived, total, side)
